@@ -18,10 +18,18 @@ from .cursor import Column
 
 def uniquify(iterable):
     seen = set()
+    unhashable = []
     for obj in iterable:
-        if obj not in seen:
+        try:
+            if obj in seen:
+                continue
             seen.add(obj)
-            yield obj
+        except TypeError:
+            # Rows containing unhashable values, inventories for example.
+            if obj in unhashable:
+                continue
+            unhashable.append(obj)
+        yield obj
 
 
 def execute_print(c_print, file):
